@@ -19,7 +19,7 @@ Not decided: the arithmetic value of targets beyond the formula shape.
 import re
 
 from fvlib.core import (CFG, CallGraph, agg_blocks, assignments, call_blocks, calls, callee_matches, callee_name,
-                        describe, guards, guard_region, origins, short, defs_of_local, dbg_name)
+                        describe, guards, guard_region, inline_mode, match_commuted, origins, short, defs_of_local, dbg_name)
 from fvlib.summ import Summaries, INF, ok_sites
 from fvlib import vm
 
@@ -119,7 +119,7 @@ def run(F, rep, tier, allfacts):
     rep.check(bool(okc), "SHAPE-jump", "untaken->inc_pc-only", "%s:%s" % (jf["file"], jf["line"]),
               "when the condition is false jump() must call inc_pc and must not write $pc; when true it must not call inc_pc")
     # bound guard
-    gl = [(g, guard_region(g, r"^var:target_addr$", r"VM_MAX_RAM$")) for g in guards(jf)]
+    gl = [(g, guard_region(g, r"^(?!.*VM_MAX_RAM)", r"VM_MAX_RAM$")) for g in guards(jf)]
     gl = [(g, r) for g, r in gl if r is not None]
     pcw = []
     dm = {}
@@ -168,14 +168,15 @@ def run(F, rep, tier, allfacts):
                 if m2 != mode:
                     mine = mine - cfg.reachable_incl(t2)
             forms = set()
-            for d in defs_of_local(jf).get(tl, []):
-                if d[1] in mine:
-                    if d[0] == "call":
-                        forms.add("call:%s(%s)" % (callee_name(d[2]).rsplit("::", 1)[-1], ",".join(describe(jf, a, depth=24) for a in d[3])))
-                    elif d[0] == "assign" and d[3][0] == "use":
-                        forms.add(describe(jf, d[3][1], depth=24))
+            with inline_mode(F, r"^fuel_vm::interpreter::flow::"):      # read through private helpers of the module
+                for d in defs_of_local(jf).get(tl, []):
+                    if d[1] in mine:
+                        if d[0] == "call":
+                            forms.add("call:%s(%s)" % (callee_name(d[2]).rsplit("::", 1)[-1], ",".join(describe(jf, a, depth=30) for a in d[3])))
+                        elif d[0] == "assign" and d[3][0] == "use":
+                            forms.add(describe(jf, d[3][1], depth=30))
             want = FORMULA.get(mode)
-            rep.check(want is not None and len(forms) == 1 and bool(re.match(want, next(iter(forms)))), "SHAPE-jump", "formula:" + mode,
+            rep.check(want is not None and len(forms) == 1 and match_commuted(want, next(iter(forms))) is not None, "SHAPE-jump", "formula:" + mode,
                       "%s:%s" % (jf["file"], jf["line"]), "target formula of JumpMode::%s differs from the specification: %s" % (mode, sorted(forms)))
             rep.sample({"mode": mode, "formula": sorted(forms)})
 
